@@ -125,6 +125,8 @@ class RtGen:
                                 args.append(r.choice(LITS))
                         decs.append({"tag": t, "decorator": r.choice(["Decorate", "al.Wrap", "Wrap"]), "arguments": args})
         if decs:
+            # declaration order interleaves the tags (decorators of a service carrying several tags apply in declaration order)
+            r.shuffle(decs)
             cfg["decorators"] = decs
         return cfg
 
